@@ -12,7 +12,7 @@ malformed content.
 Coverage audit (item of the property text -> stream that drives it on the IMPLEMENTATION; P = the property predicate
 "signature == k-mer set of the contigs == union of per-contig signatures" is judged there, M = also tied to the model):
 
-  clause / quantifier element            streams (numbers as in generate(); A..H were added by the audit)
+  clause / quantifier element            streams (numbers as in generate(); A..H were added by the audit, I by the round-5 review)
   reverse-complement any contig          1 exhaustive masks, 3 random (P,M); C: ambiguity codes complemented as tools do (P,M)
   reorder contigs                        1, 3 (P,M); F: duplicated contigs, a contig + its reverse complement, 30+ contigs (P,M)
   letter case                            1, 3 (P,M): keep / upper / lower / per-byte mixed
@@ -39,6 +39,19 @@ Coverage audit (item of the property text -> stream that drives it on the IMPLEM
   gambit signatures create               1-3: positional files, -c 2, -k/-p given; E (+A, D, G): -l list file, -l + --ldir, no -c,
                                          -c 1, -c 3, default k-mer spec (no -k/-p), k > 11 (P)
   gambit dist (same code path)           H: rows of all variants identical, distance 0 to the canonical file (P, through 4 decimals)
+  depends ONLY on the genome's content   I (history): genome B computed after 1-5 earlier calls in the same process / thread, the whole history
+  (no state carried between calls)        run again before each of 8 entry points (calc_file_signature, accumulator=fresh, calc_signature of
+                                         the contigs, calc_file_signatures concurrency None / threads max_workers=1 / caller-supplied reused
+                                         1-worker ThreadPoolExecutor, executor.submit, in-process `signatures create -c 1`).  Earlier calls:
+                                         well-formed reads of OTHER genomes (same k + prefix, same k + another prefix, another k) and reads
+                                         that FAIL part-way: gzip cut at a fraction of the stream or 1-12 bytes before its end, CRC trailer
+                                         bit flipped, byte inside the stream inverted, byte >= 0x80 beyond the first 8 KiB text chunk,
+                                         directory, missing file, record iterator raising OSError / RuntimeError / ValueError / MemoryError /
+                                         EOFError after n records, non-sequence item among the contigs; through calc_file_signature,
+                                         calc_signature, calc_file_signatures (None / threads / reused executor, 0-2 well-formed files before
+                                         the failing one), the in-process CLI; caller accumulators (Set / Array) left non-empty; the other
+                                         genome written at the path B's file has afterwards.  k 3..11 (array) and 12..32 (set) (P; only B and
+                                         the well-formed reads without a caller accumulator are judged, never the outcome of a failing call)
   not driven here                        gambit query / tree and gambit.query.query_parse (need a database / tree: C04, C09, C17
                                          call the same calc_file_signatures); --db-params; non-ASCII file content (locale dependent);
                                          bare-CR line ends, blank lines, ';' comments: only model vs parser (stream 4), not stated
@@ -67,19 +80,33 @@ RULE = ('genome: (k, prefix, contigs, variants) -> for every variant file calc_f
         'the harness\'s own _pyspec, which is compared with signature_spec on every smaller case) | forms: each call form '
         '(path types, relative path, from_paths, explicit compression, caller-supplied / reused accumulators, KmerSpec argument types, '
         'calc_file_signatures with concurrency None/threads over variants + another genome + a repeated file, gambit dist rows) '
-        'gives the k-mer set of the genome; non-trivial: non-empty signature')
+        'gives the k-mer set of the genome; non-trivial: non-empty signature | history: (genome B, history of 1-5 earlier calls, entry '
+        'points) -> for every entry point, after the whole history was run in the same process and thread (well-formed reads of other '
+        'genomes with the same or another k / prefix; reads failing part-way: gzip truncated inside the stream or the trailer, CRC or '
+        'stream byte corrupted, undecodable byte beyond the first text chunk, directory, missing file, record iterator raising, '
+        'non-sequence item; through calc_file_signature / calc_signature / calc_file_signatures with concurrency None, threads, a reused '
+        'caller-supplied executor / the in-process CLI; caller accumulators left non-empty; the path of B previously holding another '
+        'genome) the signature of B == signature_spec(contigs of B), and every well-formed earlier read == the k-mer set of its own '
+        'genome; the outcome of a failing call is not judged; non-trivial: >= 2 contigs, non-empty signature and a history in which a '
+        'call raised or a caller accumulator was left non-empty')
 TRUSTED = ['hand model of io.TextIOWrapper(newline=None) and Biopython 1.88 FastaIterator on ASCII text (Model/C06Fasta.v), '
            'validated against SequenceFile.parse on every run, not verified',
            'zlib/gzip: Section variable gunzip with hypotheses gunzip(gzip x) = x and gzip x starts with 1f 8b; the '
            'harness checks both hypotheses on every compressed file it writes',
-           'C01 (Props/C01.v): model of calc_signature = signature_spec; tools/pyx2v.py for the encoders']
+           'C01 (Props/C01.v): model of calc_signature = signature_spec; tools/pyx2v.py for the encoders',
+           'history stream: the model is a pure function of the contig list, so it is the oracle for "the signature B has in a fresh '
+           'process"; the failing inputs (truncated / corrupted gzip, undecodable bytes, raising iterators) are only required to leave no '
+           'trace, which exception they raise (or whether they raise: locale, gzip member boundaries) is counted, not judged']
 ASSUMPTIONS = ['file content is ASCII (decoding is the identity; other bytes depend on the locale encoding)',
                'sequence bytes are not space/tab/CR/LF/">" and titles contain no CR/LF (wf_contig, checked on every generated genome)',
                'prefix is non-empty upper-case ACGT, k >= 1 (KmerSpec validates it); the CLI is exercised for k >= 5, prefix length >= 2 '
                '(it refuses anything smaller); k <= 32',
                'genomes above 4096 bases and ragged layouts are judged by the property predicate; the model comparison is skipped for the '
                'former (quadratic cost) and the render_fasta comparison for the latter (a different writer)',
-               'the file is opened with compression="auto" as every CLI command does (SequenceFile\'s own default None means "none")']
+               'the file is opened with compression="auto" as every CLI command does (SequenceFile\'s own default None means "none")',
+               'history: earlier calls and the judged call run one after the other (in the main thread or in one worker thread of a '
+               '1-worker executor); concurrent interference between threads / processes is C13; a signature computed INTO a caller-supplied '
+               'accumulator that is not empty is not judged (the property does not state it)']
 
 _TR = bytes.maketrans(b'ACGTacgt', b'TGCAtgca')
 EXTS = ['.fa', '.fasta', '.fasta.gz', '.gz', '', '.fna', '.txt', '.fa.gz']
@@ -760,7 +787,314 @@ def _via_open(kspec, path):
 		return calc_signature(kspec, [rec.seq for rec in SeqIO.parse(f, 'fasta')])
 
 
-KINDS = {'genome': k_genome, 'parse': k_parse, 'open': k_open, 'forms': k_forms}
+# ---- history: what was computed (or failed) earlier in the same process / thread must not show ---------------------
+HIST_ENTRIES = ['calc_file_signature', 'calc_file_signature accumulator=fresh', 'calc_signature of the contigs',
+                'calc_file_signatures concurrency=None', 'calc_file_signatures threads max_workers=1',
+                'calc_file_signatures executor=reused', 'executor.submit(calc_file_signature)', 'cli signatures create -c 1']
+HIST_WORKER = ('calc_file_signatures executor=reused', 'executor.submit(calc_file_signature)')
+HIST_EXC = {'OSError': OSError, 'RuntimeError': RuntimeError, 'ValueError': ValueError, 'MemoryError': MemoryError, 'EOFError': EOFError}
+GZ_FAILS = ('gz-trunc', 'gz-crc', 'gz-flip')
+
+
+class _Interrupted:
+	"""a sequence file whose record iterator raises after `after` records (an I/O error in the middle of a read)"""
+
+	def __init__(self, sf, after, exc):
+		self.sf, self.after, self.exc = sf, after, exc
+		self.path, self.format, self.compression = sf.path, sf.format, sf.compression
+
+	def __fspath__(self):
+		return str(self.path)
+
+	def parse(self, **kw):
+		from gambit.util.io import ClosingIterator
+		inner = self.sf.parse(**kw)
+
+		def gen():
+			for i, rec in enumerate(inner):
+				if i >= self.after:
+					raise self.exc(f'read interrupted after {i} records (harness/c06.py history stream)')
+				yield rec
+		return ClosingIterator(gen(), inner.fobj)
+
+
+def _interrupted_seqs(contigs, after, exc):
+	for i, s in enumerate(contigs):
+		if i >= after:
+			raise exc(f'record iterator interrupted after {i} records (harness/c06.py history stream)')
+		yield s
+
+
+def _step_blob(st, contigs):
+	"""bytes of the file an earlier call reads; fail modes: gz-trunc (cut: fraction of the compressed length, or a negative
+	number of bytes counted from the end), gz-crc (a bit of the CRC-32 trailer flipped), gz-flip (a byte inside the
+	compressed stream inverted), bad-byte (a byte >= 0x80 written over the text at fraction `at`)"""
+	v = st.get('layout') or CANON
+	f = st.get('fail') or {}
+	mode = f.get('mode')
+	data = _render(apply_variant(contigs, [b'h%d' % i for i in range(len(contigs))], v), v)
+	if mode == 'bad-byte' and data:
+		d = bytearray(data)
+		d[min(len(d) - 1, int(f.get('at', 0.9) * len(d)))] = f.get('byte', 0xff)
+		data = bytes(d)
+	if not (v.get('gz') or mode in GZ_FAILS):
+		return data
+	blob = bytearray(gz_blob(data, v.get('gzm'), v.get('gzseed', 0)))
+	n = len(blob)
+	if mode == 'gz-trunc':
+		cut = f.get('cut', 0.5)
+		blob = blob[:max(0, n + cut if cut < 0 else int(n * cut))]
+	elif mode == 'gz-crc':
+		blob[n - 6] ^= 0x10
+	elif mode == 'gz-flip':
+		blob[min(n - 1, 10 + int(f.get('at', 0.5) * max(0, n - 18)))] ^= 0xff
+	return bytes(blob)
+
+
+def k_history(ctx, cases):
+	"""genome B computed after a history of earlier calls in the same process / thread.  case: genome (k, prefix, contigs, titles)
+	+ variants (the files of B, used in rotation) + history (list of steps) + entries (names out of HIST_ENTRIES).  For every
+	entry the whole history is run again, then B is computed through that entry; the result must be the k-mer set of B.
+	step: via (file | sig | files-none | files-threads1 | files-exec | cli), k, prefix, contigs | gen (the other genome),
+	layout (how its file is written), fail (None: a well-formed file; else mode gz-trunc / gz-crc / gz-flip / bad-byte / dir /
+	missing / interrupt / bad-item), acc ('set' | 'array': a caller-supplied accumulator that is never cleared), lead (well-formed
+	copies of the same genome placed before the file in a multi-file call), samepath (the file is written at the path B's file
+	has afterwards).  Only B and the steps that read a well-formed file without a caller-supplied accumulator are judged."""
+	from concurrent.futures import ThreadPoolExecutor
+	from gambit.kmers import KmerSpec
+	from gambit.seq import SequenceFile
+	from gambit.sigs.calc import calc_file_signature, calc_file_signatures, calc_signature, SetAccumulator, ArrayAccumulator, default_accumulator
+	from gambit.sigs.base import load_signatures
+	from click.testing import CliRunner
+	import gambit.cli
+
+	reqs = []
+	plan = []
+	for c in cases:
+		contigs, titles, k, p = _contigs_of(c)
+		base = None if sum(map(len, contigs)) > MODEL_MAX else len(reqs)
+		if base is not None:
+			reqs.append((103, [k, p, contigs]))
+		plan.append((c, contigs, titles, base))
+	ans = ctx.model(reqs) if ctx.model_ok and reqs else None
+
+	def lst(sig):
+		return [int(x) for x in sig]
+
+	for c, contigs, titles, base in plan:
+		k, p = c['k'], c['prefix']
+		kspec = KmerSpec(k, p)
+		expect = _pyspec(k, p.encode(), contigs)
+		if ans is not None and base is not None:
+			if expect != ans[base]:
+				ctx.broke('harness: _pyspec differs from the extracted signature_spec', str(c)[:300])
+			expect = ans[base]
+		if not c.get('variants') or len(contigs) < c.get('min_contigs', 0):
+			continue               # (the shrinker keeps B a multi-contig genome)
+		made = []                  # everything written for this case
+		bfiles = []                # (variant, path, blob) of genome B
+		for v in c['variants']:
+			blob = _render(apply_variant(contigs, titles, v), v)
+			if v['gz']:
+				blob = gz_blob(blob, v.get('gzm'), v.get('gzseed', 0))
+			path = _path(v['ext'], v.get('name'))
+			with open(path, 'wb') as f:
+				f.write(blob)
+			made.append(path)
+			bfiles.append((v, path, blob))
+		steps = []
+		for st in c.get('history', []):
+			sk, sp = st['k'], st['prefix']
+			sc = _gen_contigs(st['gen'], sk, sp.encode()) if 'gen' in st else [bytes.fromhex(h) for h in st.get('contigs', [])]
+			mode = (st.get('fail') or {}).get('mode')
+			pr = dict(st=st, ks=KmerSpec(sk, sp), contigs=sc, mode=mode, want=_pyspec(sk, sp.encode(), sc), blob=None, path=None, good=None)
+			if mode == 'dir':
+				pr['path'] = _path('.fa')
+				os.makedirs(pr['path'], exist_ok=True)
+			elif mode == 'missing':
+				pr['path'] = _path('.fa')
+			else:
+				pr['blob'] = _step_blob(st, sc)
+				pr['path'] = _path((st.get('layout') or CANON)['ext'])
+				with open(pr['path'], 'wb') as f:
+					f.write(pr['blob'])
+			made.append(pr['path'])
+			if st.get('lead'):
+				pr['good'] = _path('.fasta')
+				with open(pr['good'], 'wb') as f:
+					f.write(render([(b'l%d' % i, s) for i, s in enumerate(sc)], 70, False, True))
+				made.append(pr['good'])
+			steps.append(pr)
+
+		ex = ThreadPoolExecutor(max_workers=1)
+
+		def in_worker(fn):
+			return ex.submit(fn).result()
+
+		def run_step(pr, bpath, worker, accs):
+			"""-> ('ok', [signatures]) | ('raised', exception type name)"""
+			st, ks, mode = pr['st'], pr['ks'], pr['mode']
+			f = st.get('fail') or {}
+			via = st.get('via', 'file')
+			acc = None
+			if st.get('acc'):
+				key = (ks.k, st['acc'])
+				if key not in accs:
+					accs[key] = ArrayAccumulator(ks.k) if st['acc'] == 'array' and ks.k <= 11 else SetAccumulator(ks.k)
+				acc = accs[key]
+			path = pr['path']
+			if st.get('samepath') and pr['blob'] is not None:
+				path = bpath
+				with open(path, 'wb') as fh:
+					fh.write(pr['blob'])
+			exc = HIST_EXC.get(f.get('exc'), OSError)
+			after = f.get('after', 1)
+			if via == 'cli' and (ks.k < 5 or len(st['prefix']) < 2 or acc is not None or mode in ('interrupt', 'bad-item')):
+				via = 'files-none'       # the CLI refuses such a k-mer spec / has no such argument
+			kw = {} if acc is None else dict(accumulator=acc)
+			if via == 'sig':
+				if mode == 'bad-item':
+					seqs = list(pr['contigs'][:after]) + [12345] + list(pr['contigs'][after:])
+				elif mode is not None:
+					seqs = _interrupted_seqs(pr['contigs'], after, exc)
+				else:
+					seqs = iter(pr['contigs']) if st.get('lead') else list(pr['contigs'])
+
+				def fn():
+					return [calc_signature(ks, seqs, **kw)]
+			else:
+				sf = SequenceFile(path, 'fasta', 'auto')
+				if mode == 'interrupt':
+					sf = _Interrupted(sf, after, exc)
+				files = ([SequenceFile(pr['good'], 'fasta', 'auto')] * st['lead'] if pr['good'] else []) + [sf]
+				if via == 'file' or acc is not None:
+					def fn():
+						return [calc_file_signature(ks, sf, **kw)]
+				elif via == 'files-none':
+					def fn():
+						return list(calc_file_signatures(ks, files, concurrency=None))
+				elif via == 'files-threads1':
+					def fn():
+						return list(calc_file_signatures(ks, files, concurrency='threads', max_workers=1))
+				elif via == 'files-exec':
+					def fn():
+						return list(calc_file_signatures(ks, files, executor=ex))
+				elif via == 'cli':
+					def fn():
+						out = _path('.gs')
+						try:
+							r = CliRunner().invoke(gambit.cli.cli, ['signatures', 'create', '--no-progress', '-c', '1', '-k', str(ks.k), '-p', st['prefix'],
+							                                         '-o', out] + [str(x.path) for x in files])
+							ctx.count('history cli invocations')
+							if r.exit_code != 0:
+								raise RuntimeError(f'cli exit {r.exit_code}: {type(r.exception).__name__}')
+							sigs = load_signatures(out)
+							try:
+								return [np.array(x) for x in sigs]
+							finally:
+								if hasattr(sigs, 'close'):
+									sigs.close()
+						finally:
+							_unlink(out)
+				else:
+					raise ValueError(f'history step via {via!r}')
+			try:
+				res = in_worker(fn) if worker and via in ('file', 'sig', 'files-none') else fn()
+				return 'ok', [lst(x) for x in res]
+			except Exception as e:  # noqa
+				return 'raised', type(e).__name__
+
+		try:
+			for ei, entry in enumerate(c.get('entries', [])):
+				if entry.startswith('cli') and (k < 5 or len(p) < 2):
+					continue
+				worker = entry in HIST_WORKER
+				v, bpath, bblob = bfiles[ei % len(bfiles)]
+				accs = {}
+				outcomes = []
+				bad = False
+				for si, pr in enumerate(steps):
+					st = pr['st']
+					res, val = run_step(pr, bpath, worker, accs)
+					outcomes.append('ok' if res == 'ok' else val)
+					ctx.count(f'history step {"fail " + pr["mode"] if pr["mode"] else "well-formed"} via {st.get("via", "file")}'
+					          + (' accumulator=' if st.get('acc') else ''))
+					ctx.count('history step outcome ' + outcomes[-1])
+					# an earlier genome read from a well-formed file is a genome like any other: judged by the same predicate
+					if res == 'ok' and pr['mode'] is None and not st.get('acc') and any(x != pr['want'] for x in val):
+						got = next(x for x in val if x != pr['want'])
+						ctx.violation('history', dict(c, history=c['history'][:si + 1], variants=[v], entries=[entry]),
+						              f'history step {si} ({st.get("via", "file")}, k={st["k"]} prefix={st["prefix"]}) after steps with outcomes {outcomes[:-1]}: '
+						              f'signature {got[:30]} of a well-formed genome file is not the k-mer set of its contigs {pr["want"][:30]}',
+						              impl=got, spec=pr['want'])
+						bad = True
+						break
+				if bad:
+					break
+				with open(bpath, 'wb') as fh:          # B's file (a step may have used its path for another genome)
+					fh.write(bblob)
+				sfb = SequenceFile(bpath, 'fasta', 'auto')
+				try:
+					if entry == 'calc_file_signature':
+						got = lst(calc_file_signature(kspec, sfb))
+					elif entry == 'calc_file_signature accumulator=fresh':
+						got = lst(calc_file_signature(kspec, sfb, accumulator=default_accumulator(k)))
+					elif entry == 'calc_signature of the contigs':
+						got = lst(calc_signature(kspec, contigs))
+					elif entry == 'calc_file_signatures concurrency=None':
+						got = lst(calc_file_signatures(kspec, [sfb], concurrency=None)[0])
+					elif entry == 'calc_file_signatures threads max_workers=1':
+						got = lst(calc_file_signatures(kspec, [sfb], concurrency='threads', max_workers=1)[0])
+					elif entry == 'calc_file_signatures executor=reused':
+						got = lst(calc_file_signatures(kspec, [sfb], executor=ex)[0])
+					elif entry == 'executor.submit(calc_file_signature)':
+						got = lst(ex.submit(calc_file_signature, kspec, sfb).result())
+					elif entry == 'cli signatures create -c 1':
+						out = _path('.gs')
+						try:
+							r = CliRunner().invoke(gambit.cli.cli, ['signatures', 'create', '--no-progress', '-c', '1', '-k', str(k), '-p', p, '-o', out, bpath])
+							ctx.count('history cli invocations')
+							if r.exit_code != 0:
+								got = f'cli exit {r.exit_code}: {r.exception!r} {r.output[:100]}'
+							else:
+								sigs = load_signatures(out)
+								got = lst(sigs[0]) if len(sigs) == 1 else f'{len(sigs)} signatures for one file'
+								if hasattr(sigs, 'close'):
+									sigs.close()
+						finally:
+							_unlink(out)
+					else:
+						ctx.broke('harness: unknown history entry', entry)
+						continue
+				except Exception as e:  # noqa
+					got = type(e).__name__ + ': ' + str(e)[:120]
+				ctx.count('history entry ' + entry)
+				nraised = sum(1 for o in outcomes if o != 'ok')
+				dirty = any(pr['st'].get('acc') for pr in steps)
+				ctx.case(dict(entry=entry, k=k, prefix=p, contigs=len(contigs), nsig=len(expect),
+				              history=[(pr['st'].get('via', 'file'), pr['st']['k'], pr['st']['prefix'], pr['mode'], bool(pr['st'].get('acc')), o)
+				                       for pr, o in zip(steps, outcomes)], **_vdesc(v)),
+				         nontrivial=len(contigs) >= 2 and len(expect) > 0 and (nraised > 0 or dirty))
+				if nraised:
+					ctx.count('history: genome computed after a call that raised')
+				if got != expect:
+					extra = sorted(set(got) - set(expect))[:10] if isinstance(got, list) else None
+					ctx.violation('history', dict(c, variants=[v], entries=[entry]),
+					              f'{entry}: after a history of {len(steps)} earlier calls in the same process (outcomes {outcomes}) the signature of the '
+					              f'genome file written as {_vdesc(v)} is {str(got)[:120]} ({len(got) if isinstance(got, list) else "-"} k-mers, not in '
+					              f'the genome: {extra}) but the k-mer set of its {len(contigs)} contigs is {expect[:30]} ({len(expect)} k-mers)',
+					              impl=got, spec=expect)
+					break
+		finally:
+			ex.shutdown(wait=True)
+			for path in made:
+				if os.path.isdir(path):
+					shutil.rmtree(path, ignore_errors=True)
+				else:
+					_unlink(path)
+
+
+KINDS = {'genome': k_genome, 'parse': k_parse, 'open': k_open, 'forms': k_forms, 'history': k_history}
 BATCH = 12
 
 
@@ -980,6 +1314,61 @@ def _case(k, p, contigs, titles, vs, **kw):
 	return dict(k=k, prefix=p.decode(), contigs=[s.hex() for s in contigs], titles=[t.hex() for t in titles], variants=vs, **kw)
 
 
+def _rand_prefix(rng, n):
+	return bytes(rng.choice(b'ACGT') for _ in range(n))
+
+
+def _hist_step(rng, k, p):
+	"""one earlier call: a well-formed or failing read of ANOTHER genome, with the k-mer spec of B or another one"""
+	r = rng.random()
+	if r < 0.7:
+		sk, sp = k, p
+	elif r < 0.82:
+		sk, sp = k, _rand_prefix(rng, rng.choice([2, 3]))          # same k (same accumulator size), another prefix
+	else:
+		sk, sp = rng.choice([5, 7, 11, 12, 16]), (p if rng.random() < 0.5 else _rand_prefix(rng, rng.choice([2, 3])))
+	via = rng.choice(['file', 'file', 'file', 'sig', 'files-none', 'files-none', 'files-threads1', 'files-exec', 'files-exec'])
+	if rng.random() < 0.04:
+		via = 'cli'
+	st = dict(via=via, k=sk, prefix=sp.decode())
+	fail = None
+	if rng.random() < 0.62:
+		if via == 'sig':
+			mode = rng.choice(['interrupt', 'interrupt', 'bad-item'])
+		else:
+			mode = rng.choice(['gz-trunc'] * 5 + ['gz-crc', 'gz-crc', 'gz-flip', 'bad-byte', 'bad-byte', 'dir', 'missing']
+			                  + (['interrupt'] * 3 if via != 'cli' else []))
+		fail = dict(mode=mode)
+	mode = fail and fail['mode']
+	if mode == 'bad-byte' or (mode in GZ_FAILS and rng.random() < 0.15):
+		# beyond the 8 KiB text chunk: a decoding error shows only after whole records were delivered
+		lens = [rng.randint(1500, 4000) for _ in range(rng.randint(3, 5))]
+		st['gen'] = dict(seed=rng.randrange(1 << 30), lens=lens, alpha=rng.choice(['ACGT', 'ACGTacgtN']))
+		n = len(lens)
+		contigs = [b'x' * 80] * n
+	else:
+		contigs, _ = _genome(rng, sk, sp, n=rng.choice([2, 3, 4, 6]), maxlen=200)
+		st['contigs'] = [s.hex() for s in contigs]
+		n = len(contigs)
+	st['layout'] = _base_variant(rng, n, contigs, gzm=rng.choice([None, None, None, 'l1', 'l0', 'fname', 'multi', 'bgzf']), gzseed=rng.randrange(1 << 30))
+	if mode == 'gz-trunc':
+		fail['cut'] = rng.choice([round(rng.uniform(0.3, 0.99), 3)] * 3 + [-1, -4, -8, -9, -12])
+	elif mode == 'gz-flip':
+		fail['at'] = round(rng.random(), 3)
+	elif mode == 'bad-byte':
+		fail.update(at=round(rng.uniform(0.72, 0.999), 4), byte=rng.choice([0xff, 0xc3, 0x80, 0xfe, 0xe9]))
+	elif mode in ('interrupt', 'bad-item'):
+		fail.update(after=rng.choice([1, max(1, n - 1), rng.randint(0, n)]), exc=rng.choice(sorted(HIST_EXC)))
+	st['fail'] = fail
+	if via in ('file', 'sig') and rng.random() < 0.22:
+		st['acc'] = 'array' if sk <= 11 and rng.random() < 0.6 else 'set'
+	if via.startswith('files') or via == 'cli' or via == 'sig':
+		st['lead'] = rng.choice([0, 0, 1, 2])
+	if via != 'sig' and mode not in ('dir', 'missing') and rng.random() < 0.15:
+		st['samepath'] = True
+	return st
+
+
 def _audit_streams(ctx, rng):
 	cli_forms = [dict(mode=m, cores=c) for m in ('args', 'list', 'ldir') for c in (None, 1, 3)]
 
@@ -1091,3 +1480,15 @@ def _audit_streams(ctx, rng):
 		                                    **(dict(name=rng.choice(NAMES)) if rng.random() < 0.3 else {})) for _ in range(3)]
 		ctx.count('stream:call-forms')
 		yield 'forms', _case(k, p, contigs, titles, vs, other=[s.hex() for s in other], dist_cores=rng.choice([None, 1, 2]))
+
+	# ---- I. history: genome B computed after earlier calls in the same process / thread (well-formed reads of other genomes,
+	#         reads that fail part-way, caller accumulators left non-empty), through every entry point; both accumulator kinds ----
+	for gi in range(ctx.pick(100, 500)):
+		k = rng.choice([3, 5, 7, 8, 9, 11, 11] if gi % 2 == 0 else [12, 13, 16, 17, 31, 32])
+		p = _rand_prefix(rng, rng.choice([1, 2, 2, 3, 3, 5]))
+		contigs, titles = _genome(rng, k, p)
+		vs = [dict(CANON), _base_variant(rng, len(contigs), contigs, gzm=rng.choice([None, 'fname', 'multi']))]
+		history = [_hist_step(rng, k, p) for _ in range(rng.choice([1, 1, 2, 2, 3, 4, 5]))]
+		entries = [e for e in HIST_ENTRIES if not e.startswith('cli') or gi % 5 == 0]
+		ctx.count('stream:history')
+		yield 'history', _case(k, p, contigs, titles, vs, history=history, entries=entries, min_contigs=min(2, len(contigs)))
